@@ -1208,6 +1208,22 @@ def audit_probe(ctx, info, rng):
     return {"mcp_mutation_audit": stats}
 
 
+def audit_probe_proxy(ctx, info, rng, start_only=False, handle=None):
+    """C20's audit clause in Admin-proxy mode (queue backend memory: the tools call the Admin API over HTTP): every call of a mutating
+    tool appends exactly one MCP audit record - also when the tool refused, the Admin API refused, the request failed at the transport
+    level (refused, reset, answer lost or cut short, 5xx, timeout) - with result success exactly for a success result.  Keys
+    mcp-mutation-audit:proxy:<tool>:<kind>.  start_only / handle: run the harness in the background and judge later."""
+    from lib import c14proxy
+    if handle is None:
+        # a few groups are enough here: managed routes (refusals by tool and by Admin), token + require_actor, the token the Admin
+        # server rejects, the allowlist miss and one slow call
+        handle = c14proxy.start(ctx, info, seed_salt=20, tier="quick", model=False,
+                                only=lambda g: g["name"] in ("managed", "token_require_actor", "token_skew", "allowlist_miss", "slow:delay_late"))
+        if start_only:
+            return handle
+    return c14proxy.finish(handle, audit_only=True)
+
+
 def run(ctx, info, rng, *_):
     t_start = _time.time()
     tier = ctx.tier
